@@ -103,6 +103,7 @@ func init() {
 			return specSlicesSortedFunc(env, recv, []Val{args[0], {T: "natural-order"}}, st, call)
 		},
 		"slices.ContainsFunc": specSlicesContainsFunc,
+		"slices.IndexFunc":    specSlicesIndexFunc,
 		"slices.Backward":   specSlicesBackward,
 		"strings.Compare":   specBytesCompare,
 		"cmp.Compare":       specCmpCompare,
@@ -1351,4 +1352,41 @@ func specSlicesContainsFunc(env *Env, recv *Val, args []Val, st *State, call *as
 	}
 	c.trust("slices.ContainsFunc: true iff the predicate holds for some element (the predicate is side-effect free)")
 	return boolVal(fmt.Sprintf("(exists ((%s Int)) (and (<= 0 %s) (< %s %s) %s))", i, i, i, app("len_"+s, sl.T), r.T))
+}
+
+// specSlicesIndexFunc: the first index whose element satisfies the predicate, or -1.
+func specSlicesIndexFunc(env *Env, recv *Val, args []Val, st *State, call *ast.CallExpr) Val {
+	c := env.c
+	sl, f := args[0], args[1]
+	s := env.sortOf(sl.Ty)
+	env.rangeAssume(st, sl)
+	et := elemOf(sl.Ty)
+	i := c.freshBound("i")
+	sub := *env
+	sub.noSafety = true
+	sub.qvars = append(append([]string(nil), env.qvars...), fmt.Sprintf("(%s Int)", i))
+	sub.qnames = append(append([]string(nil), env.qnames...), i)
+	scratch := st.clone()
+	n := len(scratch.pc)
+	pr := sub.applyFuncValue(f, []Val{{T: app("select", app("arr_"+s, sl.T), i), Ty: et}}, scratch, call)
+	for _, ex := range untag(scratch.pc[n:]) {
+		if strings.Contains(ex, i) {
+			st.assumeOnce(fmt.Sprintf("(forall ((%s Int)) %s)", i, ex))
+		} else {
+			st.assumeOnce(ex)
+		}
+	}
+	for k, v := range scratch.heap {
+		if _, ok := st.heap[k]; !ok {
+			st.heap[k] = v
+		}
+	}
+	c.trust("slices.IndexFunc: the first index whose element satisfies the predicate, or -1 (the predicate is side-effect free)")
+	r := c.fresh("indexfunc", "Int")
+	ln := app("len_"+s, sl.T)
+	at := func(t string) string { return substToken(pr.T, i, t) }
+	st.assume(and(app("<=", "(- 1)", r), app("<", r, ln)))
+	st.assume(implies(app(">=", r, "0"), at(r)))
+	st.assume(fmt.Sprintf("(forall ((%s Int)) (=> (and (<= 0 %s) (< %s %s) (or (< %s %s) (< %s 0))) (not %s)))", i, i, i, ln, i, r, r, pr.T))
+	return Val{T: r, Ty: tInt}
 }
